@@ -379,6 +379,8 @@ func planHead(p []int) []int {
 
 // echoHandler answers with the digest of the full request.
 type c12Log struct {
+	localAddrs int  // requests that declared the server address they were sent to
+	tls        bool // the server's transport is TLS
 	mu      sync.Mutex
 	handled map[string]int    // request key -> times handled
 	seen    map[string]string // request key -> digest of what the handler saw (re-packed)
@@ -427,11 +429,32 @@ func (l *c12Log) handler(hold time.Duration) dns.HandlerFunc {
 				}
 			}
 		}
+		declaredSrv := ""
+		if o := req.IsEdns0(); o != nil {
+			for _, op := range o.Option {
+				if lo, ok := op.(*dns.EDNS0_LOCAL); ok && lo.Code == 65003 {
+					declaredSrv = string(lo.Data)
+				}
+			}
+		}
+		var cs *tls.ConnectionState
+		if st, ok := rw.(dns.ConnectionStater); ok {
+			cs = st.ConnectionState()
+		}
 		l.mu.Lock()
 		if declared != "" {
 			l.addrs++
 			if ra := rw.RemoteAddr(); ra == nil || ra.String() != declared {
 				l.addrBad = append(l.addrBad, fmt.Sprintf("%s: sent from %s, handler's RemoteAddr %v", k, declared, ra))
+			}
+		}
+		if declaredSrv != "" {
+			l.localAddrs++
+			if la := rw.LocalAddr(); la == nil || la.String() != declaredSrv {
+				l.addrBad = append(l.addrBad, fmt.Sprintf("%s: sent to %s, handler's LocalAddr %v", k, declaredSrv, la))
+			}
+			if (cs != nil) != l.tls || cs != nil && !cs.HandshakeComplete {
+				l.addrBad = append(l.addrBad, fmt.Sprintf("%s: ConnectionState %v on a server with TLS=%v", k, cs, l.tls))
 			}
 		}
 		l.handled[k]++
@@ -990,7 +1013,7 @@ func c12CrossTalk(w *core.W, j int) {
 	if j%6 == 5 {
 		network = "tcp-tls" // the stream path behind crypto/tls: record boundaries never coincide with message boundaries
 	}
-	log := &c12Log{handled: map[string]int{}, seen: map[string]string{}, tsig: map[string]string{}}
+	log := &c12Log{handled: map[string]int{}, seen: map[string]string{}, tsig: map[string]string{}, tls: network == "tcp-tls"}
 	hold := time.Duration(0)
 	if j%4 == 2 {
 		hold = 300 * time.Microsecond
@@ -1057,7 +1080,7 @@ func c12CrossTalk(w *core.W, j int) {
 			}
 		}
 	}()
-	var tsigReplyErrs, staleVerified, staleOther atomic.Int64
+	var tsigReplyErrs, staleVerified, staleOther, apiUsed atomic.Int64
 	var firstStaleErr atomic.Value
 	var firstTsigErr atomic.Value
 	signedKeys := map[string]bool{}
@@ -1108,7 +1131,7 @@ func c12CrossTalk(w *core.W, j int) {
 				}
 				o := &dns.OPT{Hdr: dns.RR_Header{Name: ".", Rrtype: dns.TypeOPT, Class: 4096}}
 				if own != nil {
-					o.Option = append(o.Option, &dns.EDNS0_LOCAL{Code: 65002, Data: []byte(own.LocalAddr().String())})
+					o.Option = append(o.Option, &dns.EDNS0_LOCAL{Code: 65002, Data: []byte(own.LocalAddr().String())}, &dns.EDNS0_LOCAL{Code: 65003, Data: []byte(own.RemoteAddr().String())})
 				}
 				local := make([]byte, 8+r.IntN(40))
 				for i := range local {
@@ -1157,8 +1180,55 @@ func c12CrossTalk(w *core.W, j int) {
 				} else if own != nil {
 					rep, _, err = cli.ExchangeWithConn(m, own)
 					own.Close()
-				} else {
+				} else if signing {
 					rep, _, err = cli.Exchange(m, addr)
+				} else {
+					// the other ways into the same exchange: context variants, the package-level helpers with their
+					// default client, connections from the Dial* helpers driven by hand, per-phase timeouts
+					variant := (c/2 + s) % 8
+					apiUsed.Add(1)
+					switch {
+					case variant == 1:
+						ctx, cancel := context.WithTimeout(context.Background(), 5*time.Second)
+						rep, _, err = cli.ExchangeContext(ctx, m, addr)
+						cancel()
+					case variant == 2 && network == "udp":
+						rep, err = dns.Exchange(m, addr)
+					case variant == 3 && network == "udp":
+						ctx, cancel := context.WithTimeout(context.Background(), 5*time.Second)
+						rep, err = dns.ExchangeContext(ctx, m, addr)
+						cancel()
+					case variant == 4 || variant == 5:
+						var co *dns.Conn
+						switch {
+						case network == "tcp-tls" && variant == 4:
+							co, err = dns.DialWithTLS(network, addr, tlsCli)
+						case network == "tcp-tls":
+							co, err = dns.DialTimeoutWithTLS(network, addr, tlsCli, 5*time.Second)
+						case variant == 4:
+							co, err = dns.Dial(network, addr)
+						default:
+							co, err = dns.DialTimeout(network, addr, 5*time.Second)
+						}
+						if err != nil {
+							continue
+						}
+						co.UDPSize = 4096
+						co.SetDeadline(time.Now().Add(5 * time.Second))
+						if s%2 == 0 {
+							if err = co.WriteMsg(m); err == nil {
+								rep, err = co.ReadMsg()
+							}
+						} else {
+							rep, err = dns.ExchangeConn(co.Conn, m)
+						}
+						co.Close()
+					case variant == 6:
+						c2 := &dns.Client{Net: network, DialTimeout: 5 * time.Second, ReadTimeout: 5 * time.Second, WriteTimeout: 5 * time.Second, UDPSize: 4096, TLSConfig: tlsCli}
+						rep, _, err = c2.Exchange(m, addr)
+					default:
+						rep, _, err = cli.Exchange(m, addr)
+					}
 				}
 				if err != nil && signing && (errors.Is(err, dns.ErrSig) || errors.Is(err, dns.ErrTime) || errors.Is(err, dns.ErrSecret) || errors.Is(err, dns.ErrKeyAlg) || errors.Is(err, dns.ErrNoSig)) {
 					tsigReplyErrs.Add(1)
@@ -1227,8 +1297,10 @@ func c12CrossTalk(w *core.W, j int) {
 		}
 	}
 	w.Count("declared_source_addresses_checked_"+network, log.addrs)
+	w.Count("declared_server_addresses_checked_"+network, log.localAddrs)
+	w.Count("client_api_variant_exchanges", int(apiUsed.Load()))
 	if len(log.addrBad) > 0 {
-		w.Violation("C12/handler-told-wrong-peer/"+network, fmt.Sprintf("%d of %d requests that declared their source address were handled with another RemoteAddr: %s", len(log.addrBad), log.addrs, log.addrBad[0]), nil)
+		w.Violation("C12/handler-told-wrong-peer/"+network, fmt.Sprintf("%d of %d requests that declared the addresses they travel between were handled with another RemoteAddr / LocalAddr / ConnectionState: %s", len(log.addrBad), log.addrs, log.addrBad[0]), nil)
 	}
 	if n := tsigReplyErrs.Load(); n > 0 {
 		w.Violation("C12/signed-reply-rejected/"+network, fmt.Sprintf("%d signed replies failed TSIG verification at their client: %v", n, firstTsigErr.Load()), nil)
